@@ -10,7 +10,7 @@ package redisemu
 //@ prop C04
 //@ safetyprop C13
 //@ requires ctx != nil && ctx.dsc != nil && dscOK(ctx.dsc)
-//@ requires [C08,C16] unlocked: !held && lockMode(ctx.dsc)
+//@ requires [C08,C16] unlocked: lockMode(ctx.dsc)
 //@ requires !mutated && !bumped && !removedKey
 //@ modifies *
 //@ ensures [C04] options.passed: gHashOptions == options
@@ -36,7 +36,7 @@ package redisemu
 //@ prop C02
 //@ safetyprop C13
 //@ requires ctx != nil && ctx.dsc != nil && dscOK(ctx.dsc)
-//@ requires [C08,C16] unlocked: !held && lockMode(ctx.dsc)
+//@ requires [C08,C16] unlocked: lockMode(ctx.dsc)
 //@ requires !mutated && !bumped && !removedKey
 //@ modifies *
 //@ ensures [C02] negative: old(istype(args["offset"], int64) && unbox(args["offset"], int64) < 0) ==> istype(output.data, respErrorString) && !mutated
@@ -47,7 +47,7 @@ package redisemu
 //@ safetyprop C13
 //@ mode int
 //@ requires ctx != nil && ctx.dsc != nil && dscOK(ctx.dsc)
-//@ requires [C08,C16] unlocked: !held && lockMode(ctx.dsc)
+//@ requires [C08,C16] unlocked: lockMode(ctx.dsc)
 //@ requires !mutated && !bumped && !removedKey
 //@ modifies *
 //@ ensures internal [C02] clamp.empty: valid == VALUE_EXISTS && specRangeEmpty(len(str), int(start64), int(end64)) ==> output.data == respBulkString("")
@@ -60,10 +60,10 @@ package redisemu
 //@ prop C07
 //@ safetyprop C13
 //@ requires ctx != nil && ctx.dsc != nil && dscOK(ctx.dsc)
-//@ requires [C08,C16] unlocked: !held && lockMode(ctx.dsc)
+//@ requires [C08,C16] unlocked: lockMode(ctx.dsc)
 //@ requires !mutated && !bumped && !removedKey
 //@ modifies *
-//@ loop 1 invariant !mutated && !held && lockMode(ctx.dsc) && dscOK(ctx.dsc)
+//@ loop 1 invariant !mutated && lockMode(ctx.dsc) && dscOK(ctx.dsc)
 //@ ensures internal [C07] plain.get: valid && !changesExpiry ==> !mutated
 
 //@ func parseArgsWithExpiration
@@ -76,7 +76,7 @@ package redisemu
 //@ safetyprop C13
 //@ mode int
 //@ requires ctx != nil && ctx.dsc != nil && dscOK(ctx.dsc)
-//@ requires [C08,C16] unlocked: !held && lockMode(ctx.dsc)
+//@ requires [C08,C16] unlocked: lockMode(ctx.dsc)
 //@ requires !mutated && !bumped && !removedKey
 //@ modifies *
 //@ loop 1 invariant 0 <= count && count <= 64*ri1
@@ -89,7 +89,7 @@ package redisemu
 //@ prop C18
 //@ safetyprop C13
 //@ requires ctx != nil && ctx.dsc != nil && dscOK(ctx.dsc)
-//@ requires [C08,C16] unlocked: !held && lockMode(ctx.dsc)
+//@ requires [C08,C16] unlocked: lockMode(ctx.dsc)
 //@ requires !mutated && !bumped && !removedKey && !gApplied
 //@ modifies *
 //@ ensures [C18] offset.range: old(istype(args["offset"], int64) && (unbox(args["offset"], int64) < 0 || unbox(args["offset"], int64) >= 4294967296)) ==> istype(output.data, respErrorString) && !mutated
@@ -120,12 +120,12 @@ package redisemu
 //@ prop C18
 //@ safetyprop C13
 //@ requires ctx != nil && ctx.dsc != nil && dscOK(ctx.dsc)
-//@ requires [C08,C16] unlocked: !held && lockMode(ctx.dsc)
+//@ requires [C08,C16] unlocked: lockMode(ctx.dsc)
 //@ requires !mutated && !bumped && !removedKey && !gApplied
 //@ modifies *
 //@ loop 1 invariant [C18] ops.wf: allabs(i, 0, len(ops), bfOpWF(ops[i]))
 //@ loop 2 invariant [C18] ops.wf: allabs(i, 0, len(ops), bfOpWF(ops[i]))
 //@ loop 3 invariant [C18] ops.wf: allabs(i, 0, len(ops), bfOpWF(ops[i]))
-//@ loop 1 invariant !held && lockMode(ctx.dsc) && dscOK(ctx.dsc) && !mutated && !bumped && !removedKey && !gApplied
-//@ loop 2 invariant !held && lockMode(ctx.dsc) && dscOK(ctx.dsc) && !mutated && !bumped && !removedKey && !gApplied
-//@ loop 3 invariant !held && lockMode(ctx.dsc) && dscOK(ctx.dsc) && !mutated && !bumped && !removedKey && !gApplied
+//@ loop 1 invariant lockMode(ctx.dsc) && dscOK(ctx.dsc) && !mutated && !bumped && !removedKey && !gApplied
+//@ loop 2 invariant lockMode(ctx.dsc) && dscOK(ctx.dsc) && !mutated && !bumped && !removedKey && !gApplied
+//@ loop 3 invariant lockMode(ctx.dsc) && dscOK(ctx.dsc) && !mutated && !bumped && !removedKey && !gApplied
